@@ -175,38 +175,6 @@ def block_throws(fn, bid):
     return any(fn.nodes[e].get('k') == 'throw' for e in fn.blocks[bid]['elems'])
 
 
-def normal_paths(fn, limit=64):
-    """All acyclic entry->exit block paths that do not end in a throw or an abort block; None when the body has a loop
-    or more than `limit` paths (unknown shape for straight-line extraction)."""
-    if fn.loops:
-        return None
-    out = []
-    stack = [(fn.entry, [fn.entry])]
-    while stack:
-        b, path = stack.pop()
-        if b == fn.exit:
-            out.append(path)
-            if len(out) > limit:
-                return None
-            continue
-        if is_abort_block(fn, b) or block_throws(fn, b):
-            continue
-        for s in fn.blocks[b]['succs']:
-            if s is None:
-                continue
-            if s in path:
-                return None
-            stack.append((s, path + [s]))
-    return out
-
-
-def path_elems(fn, path):
-    out = []
-    for b in path:
-        out.extend(fn.blocks[b]['elems'])
-    return out
-
-
 def exit_t(e):
     return isinstance(e, tuple) and e[0] == 'exit'
 
@@ -351,19 +319,6 @@ def float_value(fn, nid, fb=None, depth=0):
             return a * b
         return a / b if b != 0 else None
     return None
-
-
-def bfs_states(start, step):
-    """Generic worklist exploration: step(state) -> iterable of successor states; returns the set of visited states."""
-    seen = {start}
-    dq = deque([start])
-    while dq:
-        s = dq.popleft()
-        for t in step(s):
-            if t not in seen:
-                seen.add(t)
-                dq.append(t)
-    return seen
 
 
 # ================================================================================================ value origin
@@ -874,6 +829,21 @@ class _Frame:
                 return None
             if nm in ('reserve', 'shrink_to_fit'):
                 return None
+            if nm == 'pop_back':
+                if not s.t:
+                    raise ModelError('pop_back() on an empty string')
+                if s.t[-1] != ',':
+                    raise ModelError('pop_back() removes %r, which is not a separator: content is lost' % (s.t[-1],))
+                s.t.pop()
+                return None
+            if nm == 'resize' and len(args) >= 1:
+                k_ = self.ev(args[0])
+                if isinstance(k_, int) and 0 <= k_ <= len(s.t) and all(tok_size(x) == 1 for x in s.t):
+                    if k_ < len(s.t) and any(x != ',' for x in s.t[k_:]):
+                        raise ModelError('resize() cuts off %r' % (s.t[k_:],))
+                    del s.t[k_:]
+                    return None
+                self.unknown(nid, 'resize of this string')
             if nm == 'back':
                 return self.load(('back', s))
             if nm in ('operator=', 'assign') and len(args) == 1:
